@@ -271,7 +271,7 @@ def check_capacity(A, rep):
                     names = {x.args[1] for x in c.walk() if x.kind == "cattr"}
                     if "_CURRENT_BUFFER_SIZE" in names and any(x.kind == "param" for x in c.walk()):
                         r = g.reachable_from([a.id])
-                        if any(is_enter(g.nodes[i], "_flush_buffer") for i in r):
+                        if any(is_enter(g.nodes[i], "_flush_buffer") and g.nodes[i]["args"].get("force") == Val("const", True) for i in r):
                             ok = True
             stores = [n for n in live(g) if n.kind == "cs_write" and n["name"] == "_BUFFER_CAPACITY" and n["op"] == "rebind" and n["value"].kind == "param"]
             if ok and stores:
